@@ -195,13 +195,13 @@ def entries():
     add("BatchNorm", "transform", lambda: TR.BatchNorm(3), _rn(3), flags={"inv", "needs_init", "batch_coupled_train"})
     add("BatchNorm/affine-false+eps", "transform", lambda: TR.BatchNorm(3, eps=1e-3, momentum=0.3, affine=False), _rn(3), flags={"inv", "needs_init", "batch_coupled_train", "bigperturb"})
     # ---- elementwise
-    add("Exp", "transform", lambda: NL.Exp(), _rn(3), flags={"inv", "noparams"}, y=_ru(3, lo=0.1, hi=3.0))
-    add("Tanh", "transform", lambda: NL.Tanh(), _rn(3), flags={"inv", "noparams"}, y=_ru(3, lo=-0.9, hi=0.9))
-    add("LogTanh", "transform", lambda: NL.LogTanh(cut_point=1), (lambda n, g: 2.0 * torch.randn(n, 3, generator=g)), flags={"inv", "noparams"})
-    add("LeakyReLU", "transform", lambda: NL.LeakyReLU(0.1), _rn(3), flags={"inv", "noparams"})
-    add("LeakyReLU/slope>1", "transform", lambda: NL.LeakyReLU(2.5), _rn(3), flags={"inv", "noparams"})
+    add("Exp", "transform", lambda: NL.Exp(), _rn(3), flags={"anyshape", "inv", "noparams"}, y=_ru(3, lo=0.1, hi=3.0))
+    add("Tanh", "transform", lambda: NL.Tanh(), _rn(3), flags={"anyshape", "inv", "noparams"}, y=_ru(3, lo=-0.9, hi=0.9))
+    add("LogTanh", "transform", lambda: NL.LogTanh(cut_point=1), (lambda n, g: 2.0 * torch.randn(n, 3, generator=g)), flags={"anyshape", "inv", "noparams"})
+    add("LeakyReLU", "transform", lambda: NL.LeakyReLU(0.1), _rn(3), flags={"anyshape", "inv", "noparams"})
+    add("LeakyReLU/slope>1", "transform", lambda: NL.LeakyReLU(2.5), _rn(3), flags={"anyshape", "inv", "noparams"})
     add("Sigmoid/numpy-temperature", "transform", lambda: NL.Sigmoid(temperature=1.0 / np.sqrt(2.0)), _rn(3), flags={"inv", "noparams"}, y=_ru(3))
-    add("Sigmoid", "transform", lambda: NL.Sigmoid(temperature=0.7), _rn(3), flags={"inv", "noparams"}, y=_ru(3), build_alt=lambda: NL.Sigmoid(temperature=1.0))
+    add("Sigmoid", "transform", lambda: NL.Sigmoid(temperature=0.7), _rn(3), flags={"anyshape", "inv", "noparams"}, y=_ru(3), build_alt=lambda: NL.Sigmoid(temperature=1.0))
     add("Sigmoid/learned", "transform", lambda: NL.Sigmoid(temperature=1.3, learn_temperature=True), _rn(3), flags={"inv"}, y=_ru(3))
     add("Logit", "transform", lambda: NL.Logit(temperature=0.7), _ru(3), flags={"inv", "bounded01", "noparams"}, y=_rn(3))
     def unit_with_ends(n, g):
@@ -211,13 +211,13 @@ def entries():
         return v
 
     add("Logit/eps", "transform", lambda: NL.Logit(temperature=1.0, eps=0.05), unit_with_ends, flags={"inv", "bounded01", "noparams"}, y=_rn(3))
-    add("CauchyCDF", "transform", lambda: NL.CauchyCDF(), _rn(3), flags={"inv", "noparams"}, y=_ru(3))
+    add("CauchyCDF", "transform", lambda: NL.CauchyCDF(), _rn(3), flags={"anyshape", "inv", "noparams"}, y=_ru(3))
     add("CauchyCDFInverse", "transform", lambda: NL.CauchyCDFInverse(), _ru(3), flags={"inv", "bounded01", "noparams"}, y=_rn(3))
     add("PointwiseAffine/tensor", "transform", lambda: TR.PointwiseAffineTransform(shift=torch.tensor([0.5, -1.0, 2.0]), scale=torch.tensor([2.0, -0.5, 3.0])), _rn(3), flags={"inv", "noparams"}, build_alt=lambda: TR.PointwiseAffineTransform(shift=torch.tensor([0.0, 0.0, 0.0]), scale=torch.tensor([1.0, 1.0, 1.0])))
-    add("PointwiseAffine/scalar-image", "transform", lambda: TR.PointwiseAffineTransform(shift=0.5, scale=-2.0), _rn(2, 3, 2), flags={"inv", "noparams", "image"})
+    add("PointwiseAffine/scalar-image", "transform", lambda: TR.PointwiseAffineTransform(shift=0.5, scale=-2.0), _rn(2, 3, 2), flags={"anyshape", "inv", "noparams", "image"})
     add("GatedLinearUnit", "transform", lambda: NL.GatedLinearUnit(), _rn(3), _rn(3), flags={"inv", "noparams"})
     add("GatedLinearUnit/row-gate", "transform", lambda: NL.GatedLinearUnit(), _rn(3), _rn(1), flags={"inv", "noparams"})
-    add("Identity", "transform", lambda: TR.IdentityTransform(), _rn(3), flags={"inv", "noparams"})
+    add("Identity", "transform", lambda: TR.IdentityTransform(), _rn(3), flags={"anyshape", "inv", "noparams"})
     for nm, cls in [("Linear", NL.PiecewiseLinearCDF), ("Quadratic", NL.PiecewiseQuadraticCDF), ("Cubic", NL.PiecewiseCubicCDF), ("RQ", NL.PiecewiseRationalQuadraticCDF)]:
         add("Piecewise%sCDF" % nm, "transform", (lambda cls=cls: cls([3], num_bins=4)), _ru(3), flags={"inv", "bounded01", "spline"})
         add("Piecewise%sCDF/tails" % nm, "transform", (lambda cls=cls: cls([3], num_bins=4, tails="linear", tail_bound=1.5)), _rn(3), flags={"inv", "spline"})
